@@ -203,6 +203,8 @@ def gen_structured(rng):
     out = []
     out.append(gen_chain(rng, 300, 2, 1))                 # cdr last: the TailRecursion jump
     out.append(gen_chain(rng, 300, 2, 0))                 # link first: recursion
+    out.append(gen_chain(rng, 2500, 2, 1))                # longer, against the model too
+    out.append(gen_chain(rng, 1500, 3, 0))
     out.append(gen_chain(rng, 120, 40, 17, interior=True))  # mixed pieces, interior pointers
     out.append(gen_chain(rng, 200, 3, 1, code=17))        # pointer-free kind: nothing behind the head survives
     # a wide array pointing to many pieces, cycles, self pointers
@@ -381,7 +383,7 @@ def run_corr(ctx, build, stats):
         lvl, envv = mode
         env = {"ALDOR_VERIF_GC": envv} if envv else {"ALDOR_VERIF_GC": ""}
         t1 = time.time()
-        c = common.run_impl_lines(exe, reqs, args=(lvl,), env=env, timeout=1200)
+        c = common.run_impl_lines(exe, reqs, args=(lvl,), env=env, timeout=7200)
         return mode, c, time.time() - t1
     with ThreadPoolExecutor(max_workers=len(MODES)) as ex:
         results = list(ex.map(runmode, MODES))
@@ -433,7 +435,9 @@ def run_corr(ctx, build, stats):
                     if ex == 0: ms["exact"] += 1
                     if not envv:
                         extra_total += ex
-                if info.get("badpoison") and not envv:
+                # (only where collections happen at `G` alone and the survey follows at once: after a collection inside
+                #  stoAlloc the freed pages may already hold a section header or a free-tree node)
+                if info.get("badpoison") and not envv and lvl == "demand":
                     stats["badpoison"] = stats.get("badpoison", 0) + len(info["badpoison"])
                     ctx.corr_broken.append(("gc", "%s op %d `%s` [%s]" % (name, k, ln, mname),
                                             "freed pieces not washed with 0xDD: %s" % info["badpoison"][:10], "swept pieces are filled with the poison word"))
@@ -469,24 +473,57 @@ def replay_ops(lines):
         elif t[0] == "C": h.check()
     return h
 
+TAIL_SIG = "gc|tail-linked-chain"
+
 def deep_probe(ctx, exe, stats):
-    """no run ends in a storage fault: a long chain linked through a word that is not the last one makes
-    stoGcMarkRange recurse once per piece (implementation only; `L n link` builds the chain in the driver)"""
+    """no run ends in a storage fault, on long chains (implementation only; `L n link` builds a chain of n
+    two-word pieces in the driver, `N` collects and counts).
+    * linked through the LAST word (what a list cell is): stoGcMarkRange iterates, chains of 10^5 .. 10^6 pieces must
+      survive whole and unchanged - a fault or a lost piece here has its own signature and is never absorbed by
+      the listed finding;
+    * linked through the FIRST word: one C frame per piece; 50000 pieces must still pass, 120000 overflow the
+      stack (the listed finding `gc|deep-structure-stack-overflow`, which applies to non-last-word links only)."""
     res = {}
-    L = 120000
-    for link in (1, 0):
-        req = "H L %d %d ; G" % (L, link)
-        c = common.run_impl_lines(exe, [req], args=("demand",), env={"ALDOR_VERIF_GC": ""}, timeout=600)
+    thorough = ctx.tier == "thorough"
+    modes = [("demand", ""), ("auto", ""), ("auto", "50021,7")] + ([("demand", "200003,5"), ("auto", "7919,3")] if thorough else [])
+    for n in (100000, 300000, 1000000):
+        req = "H L %d 1 ; N ; A 0 3 ; N ; R 1 V 0 ; N" % n
+        for lvl, envv in modes:
+            c = common.run_impl_lines(exe, [req], args=(lvl,), env={"ALDOR_VERIF_GC": envv}, timeout=3600)
+            key = "tail%d/%s%s" % (n, lvl, ("+gc=" + envv) if envv else "")
+            replay = {"kind": "impl-fault", "driver": "harness/gc_drv.c", "args": [lvl], "env": {"ALDOR_VERIF_GC": envv}, "request": req}
+            if c[0].startswith("FAULT"):
+                res[key] = c[0]
+                ctx.finding(TAIL_SIG + "|fault", "the collector faults (%s) on a live chain of %d two-word pieces linked through their LAST word "
+                            "(the shape of an ordinary list; mode %s): the tail link must be followed without recursion" % (c[0], n, key), replay)
+                continue
+            ans = c[0].split(" ; ")
+            m = [re.match(r"live=(\d+) changed=(\d+) dead=(\d+)", a) for a in (ans[1], ans[3], ans[5])] if len(ans) == 6 else [None]
+            if not all(m):
+                ctx.corr_broken.append(("gc", req, c[0][:200], "l ; live=.. ; a ; live=.. ; r ; live=.."))
+                continue
+            res[key] = "live=%s,%s then %s" % (m[0].group(1), m[1].group(1), m[2].group(1))
+            if int(m[0].group(1)) < n or int(m[1].group(1)) < n + 1 or int(m[0].group(2)) or int(m[1].group(2)):
+                ctx.finding(TAIL_SIG + "|lost", "of a live chain of %d pieces linked through their last word only %s (then %s) survived a collection, %s/%s changed (mode %s)"
+                            % (n, m[0].group(1), m[1].group(1), m[0].group(2), m[1].group(2), key), dict(replay, kind="impl-violates-property", impl=c[0]))
+            elif int(m[2].group(1)) > n // 2:
+                ctx.corr_broken.append(("gc", req + " [" + key + "]", c[0], "the dropped chain is reclaimed"))
+    for n, must_pass in ((50000, True), (120000, False)):
+        req = "H L %d 0 ; N" % n
+        c = common.run_impl_lines(exe, [req], args=("demand",), env={"ALDOR_VERIF_GC": ""}, timeout=3600)
+        replay = {"kind": "impl-fault", "driver": "harness/gc_drv.c", "args": ["demand"], "env": {"ALDOR_VERIF_GC": ""}, "request": req}
         if c[0].startswith("FAULT"):
-            res["link%d" % link] = c[0]
-            ctx.finding(DEEP_SIG, "stoGcMarkRange recurses once per piece when pieces are linked through a word other than their last: "
-                        "a live chain of %d two-word pieces linked through word %d makes stoGc overflow the C stack (%s)" % (L, link, c[0]),
-                        {"kind": "impl-fault", "driver": "harness/gc_drv.c", "args": ["demand"], "request": req})
+            res["first%d" % n] = c[0]
+            if must_pass:
+                ctx.finding("gc|first-word-chain-%d|fault" % n, "the collector faults (%s) on a live chain of only %d pieces linked through their first word" % (c[0], n), replay)
+            else:
+                ctx.finding(DEEP_SIG, "stoGcMarkRange recurses once per piece when pieces are linked through a word other than their last: "
+                            "a live chain of %d two-word pieces linked through word 0 makes stoGc overflow the C stack (%s)" % (n, c[0]), replay)
         else:
-            d, info = parse_report(c[0].split(" ; ")[-1])
-            res["link%d" % link] = "survivors=%d" % len(d)
-            if len(d) < L:
-                ctx.finding("gc|reachable-freed|deep-chain", "only %d of %d chained pieces survived" % (len(d), L), {"request": req})
+            mm = re.search(r"live=(\d+) changed=(\d+)", c[0])
+            res["first%d" % n] = mm.group(0) if mm else c[0][:80]
+            if not mm or int(mm.group(1)) < n or int(mm.group(2)):
+                ctx.finding("gc|first-word-chain-%d|lost" % n, "a live chain of %d pieces linked through their first word did not survive whole: %s" % (n, c[0][:120]), replay)
     stats["deep_probe"] = res
 
 # =========================================================================================
@@ -507,6 +544,11 @@ def prog_list(thorough=False):
     for f in sorted(os.listdir(bigd)) if os.path.isdir(bigd) else []:
         if f.endswith(".as") and (thorough or f[:-3] in BIG_QUICK):
             P.append({"name": f[:-3], "path": os.path.join(bigd, f), "lib": "aldor", "native": True, "big": True})
+    # live lists of 10^5, 3*10^5 and 10^6 cells (tail-linked: the collector must not recurse on the link)
+    longd = os.path.join(corp, "long")
+    for f in sorted(os.listdir(longd)) if os.path.isdir(longd) else []:
+        if f.endswith(".as"):
+            P.append({"name": f[:-3], "path": os.path.join(longd, f), "lib": "aldor", "native": True, "big": True, "long": True})
     ext = [("intfact", os.path.join(ALDOR_TOP, "lib/aldor/test/intfact/intfact.as"), "aldor", True),
            ("bugreport_7", os.path.join(ALDOR_TOP, "lib/aldor/test/bugreport_7/bugreport_7.as"), "aldor", True),
            ("cross", os.path.join(ALDOR_TOP, "aldor/test/cross.as"), "foamlib", False),
@@ -547,8 +589,8 @@ def proc_cpu(pid):
         return 0.0
 
 def run_cpu(cmd, cwd, env, timeout, cpu_limit=None):
-    """run, return (rc, stdout, stderr, cpu seconds); rc = -signal, 'TIMEOUT', 'CPULIMIT' (killed once the
-    process had used cpu_limit seconds of processor time)"""
+    """run, return (rc, stdout, stderr, cpu seconds); rc = -signal, 'TIMEOUT' (more than `timeout` seconds of
+    processor time), 'CPULIMIT' (killed once the process had used cpu_limit seconds of processor time)"""
     e = dict(os.environ); e.update(env or {})
     with _dir_lock:
         _dir_count[0] += 1
@@ -564,7 +606,9 @@ def run_cpu(cmd, cwd, env, timeout, cpu_limit=None):
             rc = -os.WTERMSIG(st) if os.WIFSIGNALED(st) else os.WEXITSTATUS(st)
             p.returncode = rc
             break
-        if time.time() - t0 > timeout:
+        # the time limit is on the processor time the process used, so that a loaded machine does not turn a slow
+        # run into a finding; a wall-clock cap (12 x, at least an hour) still ends a process that sleeps forever
+        if (time.time() - t0 > 5 and proc_cpu(p.pid) > timeout) or time.time() - t0 > max(3600, 12 * timeout):
             p.kill(); os.wait4(p.pid, 0); p.returncode = -9; rc = "TIMEOUT"; break
         if cpu_limit is not None and proc_cpu(p.pid) > cpu_limit:
             cpu = proc_cpu(p.pid)
@@ -623,7 +667,7 @@ def first_diff(a, b):
         if x != y: return "line %d: reference %r, got %r" % (i + 1, x[:160], y[:160])
     return ""
 
-def estimate_interp_allocs(build, root, prog, base_cpu):
+def estimate_interp_allocs(build, root, prog, base_cpu, coarse=False):
     """number of allocations of the compiler process for this program.  The unhooked tree has no counter,
     so: bisection on <skip> of `1,0,<skip>` (a collection at every allocation after the first <skip>); the
     observable is the processor time of the process (it is killed as soon as the answer is clear)."""
@@ -631,14 +675,15 @@ def estimate_interp_allocs(build, root, prog, base_cpu):
     def collects(skip):
         rc, out, err, cpu, _ = interp_run(build, root, prog, "1,0,%d,0" % skip, cpu_limit=base_cpu + slack)
         return rc == "CPULIMIT" or cpu > base_cpu + slack
-    lo, hi = 0, 1 << 17
-    while collects(hi) and hi < (1 << 27):
+    lo, hi = 0, (1 << 23 if coarse else 1 << 17)
+    while collects(hi) and hi < (1 << 29):
         lo, hi = hi, hi * 2
-    while hi - lo > 250:
+    while hi - lo > (max(250, lo // 4) if coarse else 250):
         mid = (lo + hi) // 2
         if collects(mid): lo = mid
         else: hi = mid
-    return hi
+    # coarse (programs that run for seconds): a lower bound, so that every sampled point is inside the run
+    return lo if coarse else hi
 
 def native_allocs(exe, d, every=50):
     rc, out, err, cpu = run_cpu([exe], d, {"ALDOR_VERIF_GC": "%d,0" % every, "GC_DETAIL": "1"}, 900)
@@ -691,22 +736,35 @@ def run_sweep(ctx, build, stats):
                             {"kind": "gc-changes-behaviour", "program": deep["path"], "command": " ".join(cmdb) + " && ./deepchain"})
         sw["deepchain"] = res
 
+    nogc_memo, nogc_locks = {}, {p["name"]: threading.Lock() for p in progs}
+    def nogc_run(prog):
+        """the interpreter with the collector switched off (-Wno-gc): once per program"""
+        with nogc_locks[prog["name"]]:
+            if prog["name"] not in nogc_memo:
+                nogc_memo[prog["name"]] = interp_run(build, root, prog, None, extra=("-Wno-gc",))
+            return nogc_memo[prog["name"]]
+
     # ---- interpreter route
     def interp_job(prog):
         rng = random.Random(seeds[("interp", prog["name"])])
         big = prog["big"]
         ref = interp_run(build, root, prog, None)                    # natural collection, default heap
         rc0, out0, err0, cpu0, cmd0 = ref
-        if rc0 != 0 and prog["lib"] == "aldor":
-            ctx.corr_broken.append(("gc", "sweep program %s" % prog["name"], "reference run fails rc=%s %s" % (rc0, (out0 + err0)[-300:]), "runs"))
-            return
         # the collector never runs (-Wno-gc) against natural collection
-        rcn, outn, errn, cpun, cmdn = interp_run(build, root, prog, None, extra=("-Wno-gc",))
+        long_ = prog.get("long", False)
+        rcn, outn, errn, cpun, cmdn = nogc_run(prog)
         with lock: sw["natural_axis_runs"] += 1
         report("interp", prog, (rcn, outn, errn), (rc0, out0, err0), "(unset: natural collection; reference: -Wno-gc)", cmd0)
-        refc = interp_run(build, root, prog, None, extra=("-Wcheck",))
-        report("interp", prog, (rcn, outn, errn), (refc[0], refc[1], refc[2]), "(unset, -Wcheck: natural collection with washing; reference: -Wno-gc)", refc[4])
-        n = estimate_interp_allocs(build, root, prog, cpu0)
+        if rc0 != 0 and prog["lib"] == "aldor":
+            if rcn != 0:
+                ctx.corr_broken.append(("gc", "sweep program %s" % prog["name"], "reference run fails rc=%s %s" % (rc0, (out0 + err0)[-300:]), "runs"))
+            return
+        if long_:
+            refc = ref
+        else:
+            refc = interp_run(build, root, prog, None, extra=("-Wcheck",))
+            report("interp", prog, (rcn, outn, errn), (refc[0], refc[1], refc[2]), "(unset, -Wcheck: natural collection with washing; reference: -Wno-gc)", refc[4])
+        n = estimate_interp_allocs(build, root, prog, cpu0, coarse=long_)
         sw["interp_allocs"][prog["name"]] = n
         jobs = []
         if not big:
@@ -720,6 +778,12 @@ def run_sweep(ctx, build, stats):
             for w in range(nwin):
                 skip = rng.randrange(0, n + 1) if w % 3 else max(0, n - rng.randrange(0, 40000))   # a third near the end: the program's own run
                 jobs.append(("1,0,%d,100" % skip, ("-Wcheck",) if w % 4 == 0 else (), 100))
+        elif long_:
+            # millions of allocations on a 70 MB heap: very sparse schedules
+            for k in ([1000003] if not thorough else [200003, 1000003, 3000017]):
+                jobs.append(("%d,%d" % (k, rng.randrange(k)), (), n // k))
+            for w in range(1 if not thorough else 8):
+                jobs.append(("1,0,%d,3" % rng.randrange(min(n, 340000), n + 1), (), 3))
         else:
             # a collection on a 100 MB heap costs ~0.1 s: sparse schedules and short windows only
             for k in ([20011, 50021] if not thorough else [5003, 20011, 50021, 100003]):
@@ -730,7 +794,7 @@ def run_sweep(ctx, build, stats):
         nsingle = (5 if big else 4) if not thorough else 24
         for w in range(nsingle):
             skip = rng.randrange(min(n, 340000), n + 1) if w % 2 == 0 else rng.randrange(0, n + 1)   # ~340000 allocations precede the program's own run
-            jobs.append(("1,0,%d,1" % skip, ("-Wcheck",) if w % 5 == 4 else (), 1))
+            jobs.append(("1,0,%d,1" % skip, ("-Wcheck",) if w % 5 == 4 and not long_ else (), 1))
         def one(job):
             env, extra, ncoll = job
             rc, out, err, cpu, cmd = interp_run(build, root, prog, env, extra=extra)
@@ -753,14 +817,18 @@ def run_sweep(ctx, build, stats):
         rc0, out0, err0, cpu0 = run_cpu([exe], d, {"ALDOR_VERIF_GC": ""}, 900)      # natural collection, default heap
         # the compiled program has no switch that turns the collector off: its "collector never runs" reference is
         # the interpreter under -Wno-gc (stdout and exit status; the interpreter's stderr is the compiler's)
-        rcn, outn, errn, cpun, cmdn = interp_run(build, root, prog, None, extra=("-Wno-gc",))
+        long_ = prog.get("long", False)
+        rcn, outn, errn, cpun, cmdn = nogc_run(prog)
         with lock: sw["natural_axis_runs"] += 1
         if rcn == 0 or prog["lib"] == "aldor":
             report("native", prog, (rcn, outn, ""), (rc0, out0, "" if not err0 else err0), "(unset: natural collection; reference: interpreter with -Wno-gc)", runcmd)
-        n = native_allocs(exe, d, every=500 if big else 50)
+        n = native_allocs(exe, d, every=20000 if long_ else 500 if big else 50)
         sw["native_allocs"][prog["name"]] = n
         scheds = []
-        if big:
+        if long_:
+            ks = (200003, 500009) if not thorough else (50021, 200003, 500009, 1000003)
+            scheds = [(k, rng.randrange(k)) for k in ks]
+        elif big:
             ks = (2003, 5003) if not thorough else (503, 1009, 2003, 5003, 10007)
             scheds = [(k, rng.randrange(k)) for k in ks]
         elif not thorough:
@@ -778,7 +846,7 @@ def run_sweep(ctx, build, stats):
         jobs = [("%d,%d" % kj, n // kj[0]) for kj in scheds]
         if big:
             for w in range(2 if not thorough else 12):
-                jobs.append(("1,0,%d,5" % max(0, n - rng.randrange(0, 6000)), 5))
+                jobs.append(("1,0,%d,5" % (rng.randrange(min(n, 16000), n + 1) if long_ else max(0, n - rng.randrange(0, 6000))), 5))
         else:
             for w in range(6 if not thorough else 40):
                 jobs.append(("1,0,%d,200" % rng.randrange(0, n + 1), 200))
